@@ -127,6 +127,14 @@ class Exec:
             r.register_function(fd, exclusive=excl)
             m.register(fid, name, excl)
             self._wrote()
+        elif k == 'rereg':
+            # the same definition object registered in another context too
+            if not self.defs:
+                return
+            fid = sorted(self.defs)[op[2] % len(self.defs)]
+            r.register_function(self.defs[fid], exclusive=op[3])
+            m.register(fid, self.def_names[fid], op[3])
+            self._wrote()
         elif k == 'unreg':
             if not self.defs:
                 return
@@ -328,6 +336,12 @@ def make_machine(run):
             self.do(['reg', i, name, method, excl])
 
         @precondition(lambda self: self.n() > 0 and self.ex.defs)
+        @rule(i=idx, j=st.integers(0, 30),
+              excl=st.sampled_from([False, False, True]))
+        def rereg(self, i, j, excl):
+            self.do(['rereg', i, j, excl])
+
+        @precondition(lambda self: self.n() > 0 and self.ex.defs)
         @rule(i=idx, k=st.integers(0, 50))
         def unreg(self, i, k):
             self.do(['unreg', i, k])
@@ -365,6 +379,14 @@ def directed_histories(pads):
                 ops.append(['child', multi])
                 ops.append(['linked', pad, multi])
                 ops.append(['set', multi, '$zz', 1])
+                yield {'kind': 'history', 'ops': ops}
+                # one definition held by several members, deleted through
+                # the multi-context
+                ops = list(ops)
+                for j in range(k):
+                    ops.append(['rereg', pad + k + j, 0, j == k - 1])
+                ops.append(['unreg', multi, 0])
+                ops.append(['child', multi])
                 yield {'kind': 'history', 'ops': ops}
 
 
